@@ -78,6 +78,13 @@ func propC23(c *Check) {
 			mu, ok := ins.(*ssa.MapUpdate)
 			return ok && filter(mu.Map) && ConstBool(true)(mu.Value)
 		}, "filter[hash] = true", "the filter records every hash before it can be appended")
+		// a body that exists is handed out: once cacheReadTransaction returned a non-nil body the
+		// iteration cannot complete without the append (its queue records are deleted either way)
+		read := Extract(0, Call("(*storage.BadgerStore).cacheReadTransaction", nil, Param("txn")))
+		c.EdgeEffect(f, lp, BinEither(token.NEQ, read, ConstNil), true, func(ins ssa.Instruction) bool {
+			st, ok := ins.(*ssa.Store)
+			return ok && Param("txs")(st.Addr) && Call("builtin:append", Path(Param("txs"), ""), Has(read))(st.Val)
+		}, "txs = append(txs, ver)", "a queued transaction whose body exists is returned, not silently dropped with its queue records")
 		// processed keys: the visited key and the order key
 		c.ErrorsPropagated(f, txnWriteCalls, "a failed delete aborts the retrieval update")
 	}
